@@ -45,7 +45,7 @@ CHECKS = {
    "duplicate edges not flagged; batches outside the alphabet",
    "exhaustive enumeration of write histories of the real code with a structural invariant on the persisted state", "DESIGN.md §4 C10"),
  "C06": (True, "seqx-input", "model_checking",
-   "Exhaustive enumeration of all _and/_or query trees with 1-3 children and all two-level trees over a 7-leaf pool (graph vector, flat vector, two text, string, integer, _id) x 3 weight assignments on a fixed 8-point data set, both backends; result set, summed hybrid contributions and ranked-first/highest-first order are compared with a reference that evaluates the statement; on every 41st tree (thorough: every 5th) and every leaf, 11 select lists x 17 sort lists (every direction pattern over two and three keys) x 18 offset/limit pairs are checked (selected data exact, adjacent-pair sortedness with missing-last, page = contiguous slice of the full order).",
+   "Exhaustive enumeration of all _and/_or query trees with 1-3 children and all two-level trees over a 7-leaf pool (graph vector, flat vector, two text, string, integer, _id) x 4 weight assignments (incl. an explicit zero on each kind of ranking leaf) on a fixed 8-point data set, both backends; result set, summed hybrid contributions and ranked-first/highest-first order are compared with a reference that evaluates the statement; on every 41st tree (thorough: every 5th) and every leaf, 11 select lists x 17 sort lists (every direction pattern over two and three keys) x 18 offset/limit pairs are checked (selected data exact, adjacent-pair sortedness with missing-last, page = contiguous slice of the full order).",
    "one data set; sort keys must be selected; ambiguous references (ties at a leaf limit) are skipped",
    "bounded-exhaustive enumeration of query trees / select / sort / paging inputs vs reference evaluation", "DESIGN.md §4 C06"),
  "C08": (True, "seqx", "model_checking",
@@ -73,7 +73,7 @@ CHECKS = {
    "single server; the duplicate-id case is checked through the accounting equation of the statement only (ids unique per collection is the client's obligation)",
    "bounded-exhaustive input enumeration + explicit-state BFS over request histories vs reference", "DESIGN.md §4 C15"),
  "C16": (True, "seqx", "model_checking",
-   "Non-interference by lock-step differential execution: breadth-first search to depth 6 (thorough 8), de-duplicated on the complete inventory, over the product alphabet of two users (list; per collection create/get/delete/insert/insert3/update/search/filter-search/delete-point) on one real node through the assembled HTTP handler chain, for 14 user-id pairs (prefixes, key-concatenation collisions, '.', '..', space, percent, backslash, non-ASCII, trailing space, images of one another under name normalisations); each user's sub-history runs alone on its own node and every response (status + canonical body) of the shared run must equal the solitary one; the shard-file inventory of the shared node must equal the union of the solitary ones.",
+   "Non-interference by lock-step differential execution: breadth-first search to depth 6 (thorough 8), de-duplicated on the complete inventory, over the product alphabet of two users (list; per collection create/get/delete/insert/insert3/update/search/filter-search/delete-point) on one real node through the assembled HTTP handler chain, for 15 user-id pairs (prefixes, key-concatenation collisions, '.', '..', space, percent, backslash, non-ASCII, trailing space, images of one another under name normalisations, escaped '../' collection ids); each user's sub-history runs alone on its own node and every response (status + canonical body) of the shared run must equal the solitary one; the shard-file inventory of the shared node must equal the union of the solitary ones.",
    "whole requests are the unit of interleaving (node-database writes are serialised by bbolt); user ids without '/'",
    "explicit-state BFS over interleaved two-tenant histories of the real handlers with a differential (non-interference) oracle", "DESIGN.md §4 C16"),
  "C17": (True, "seqx", "model_checking",
